@@ -3,10 +3,12 @@
    [handle r] is the model of RequestHandler._execute for an application whose
    handler returns self.xsrf_token from every method; [r] holds the settings,
    the method, get_cookie("_xsrf"), the three token carriers, and the values
-   os.urandom / time.time would return.  [gate r] = xsrf_cookies is on and the
-   method is not GET/HEAD/OPTIONS. *)
+   os.urandom / time.time would return.  The method is an arbitrary string and
+   [r_supported r] is the handler class's SUPPORTED_METHODS ([declared r]: the
+   method is in it; otherwise 405).  [gate r] = xsrf_cookies is on and the method
+   is not exactly GET/HEAD/OPTIONS. *)
 From Coq Require Import List NArith ZArith Bool.
-From TV Require Import C18.Model C18.Proofs C24.Model C24.Run C24.Proofs C24.Proofs2 C24.Proofs3.
+From TV Require Import C18.Model C18.Proofs C24.Model C24.Run C24.Proofs C24.Proofs2 C24.Proofs3 C24.Proofs4.
 Import ListNotations.
 Local Open Scope N_scope.
 
@@ -17,32 +19,73 @@ Local Open Scope N_scope.
 Theorem C24_reaches_handler_iff :
   forall r,
     ran (handle r) = true <->
-    gate r = false \/
-    exists s v t ts, input_token r = Some s /\ s <> [] /\
-                     decode s (r_now r) = DTok v t ts /\ t <> [] /\ t = secret r.
+    declared r = true /\
+    (gate r = false \/
+     exists s v t ts, input_token r = Some s /\ s <> [] /\
+                      decode s (r_now r) = DTok v t ts /\ t <> [] /\ t = secret r).
 Proof. exact reaches_handler_iff. Qed.
 Print Assumptions C24_reaches_handler_iff.
 
 (* 2. A refused request is answered 403 with nothing issued, and 403 is only
       ever the refusal. *)
-Theorem C24_refusal_is_403 :
-  forall r, ran (handle r) = false -> handle r = mkresp 403 false None None.
-Proof. exact refusal_is_403. Qed.
-Print Assumptions C24_refusal_is_403.
+Theorem C24_refusal_is_405_or_403 :
+  forall r, ran (handle r) = false ->
+    (declared r = false /\ handle r = mkresp 405 false None None)
+    \/ (declared r = true /\ handle r = mkresp 403 false None None).
+Proof. exact refusal_is_405_or_403. Qed.
+Print Assumptions C24_refusal_is_405_or_403.
 
 Theorem C24_status_403_iff_refused :
-  forall r, status (handle r) = 403%Z <-> ran (handle r) = false.
+  forall r, status (handle r) = 403%Z <-> declared r = true /\ ran (handle r) = false.
 Proof. exact status_403_iff. Qed.
 Print Assumptions C24_status_403_iff_refused.
 
+Theorem C24_status_405_iff_undeclared :
+  forall r, status (handle r) = 405%Z <-> declared r = false.
+Proof. exact status_405_iff. Qed.
+Print Assumptions C24_status_405_iff_undeclared.
+
+(* 2b. EVERY method string other than exactly GET / HEAD / OPTIONS is protected
+       (standard verbs, verbs added through SUPPORTED_METHODS such as PROPFIND,
+       other spellings such as "get"): it reaches the handler only with a valid
+       token, and is otherwise refused with 403 (405 if the verb is undeclared);
+       the exempt verbs and a disabled setting are never checked. *)
+Theorem C24_non_exempt_method_requires_token :
+  forall r,
+    r_xsrf_on r = true ->
+    r_method r <> M_GET -> r_method r <> M_HEAD -> r_method r <> M_OPTIONS ->
+    ran (handle r) = true ->
+    exists s v t ts, input_token r = Some s /\ s <> [] /\
+                     decode s (r_now r) = DTok v t ts /\ t <> [] /\ t = secret r.
+Proof. exact non_exempt_method_requires_token. Qed.
+Print Assumptions C24_non_exempt_method_requires_token.
+
+Theorem C24_non_exempt_method_without_token_refused :
+  forall r,
+    r_xsrf_on r = true ->
+    r_method r <> M_GET -> r_method r <> M_HEAD -> r_method r <> M_OPTIONS ->
+    ~ (exists s v t ts, input_token r = Some s /\ s <> [] /\
+                        decode s (r_now r) = DTok v t ts /\ t <> [] /\ t = secret r) ->
+    ran (handle r) = false /\ (status (handle r) = 403%Z \/ status (handle r) = 405%Z).
+Proof. exact non_exempt_method_without_token_refused. Qed.
+Print Assumptions C24_non_exempt_method_without_token_refused.
+
+Theorem C24_exempt_or_disabled_reaches_handler :
+  forall r,
+    declared r = true ->
+    (r_xsrf_on r = false \/ r_method r = M_GET \/ r_method r = M_HEAD \/ r_method r = M_OPTIONS) ->
+    ran (handle r) = true.
+Proof. exact exempt_or_disabled_reaches_handler. Qed.
+Print Assumptions C24_exempt_or_disabled_reaches_handler.
+
 (* 3. Malformed cookies and tokens never produce a server error: for every
-      cookie, every carrier content, every method, the status is 200 or 403
+      cookie, every carrier content, every method string, the status is 200, 403 or 405
       (given a supported xsrf_cookie_version, a 4-byte mask and a printable clock). *)
 Theorem C24_never_a_server_error :
   forall r,
     (r_outver r = 1 \/ r_outver r = 2) /\ length (r_mask r) = 4%nat /\
     (exists t, render_int (r_now r) = Some t) ->
-    status (handle r) = 200%Z \/ status (handle r) = 403%Z.
+    status (handle r) = 200%Z \/ status (handle r) = 403%Z \/ status (handle r) = 405%Z.
 Proof. exact never_a_server_error. Qed.
 Print Assumptions C24_never_a_server_error.
 
@@ -58,14 +101,14 @@ Print Assumptions C24_decode_inverts_issue.
 
 (* 5. Every token the application issues (any version, any mask; the only premise
       beyond byte-ness is that os.urandom(16) is not empty) is accepted on
-      any later request -- any method, settings, clock, new randomness, other
+      any later request -- any declared method, settings, clock, new randomness, other
       carriers of lower precedence -- that presents it together with the cookie
       the client holds after the issuing response. *)
 Theorem C24_issued_token_reaches_handler :
   forall r r' tk,
     bytes (r_rnd r) -> bytes (r_mask r) ->
     token (handle r) = Some tk -> r_rnd r <> [] ->
-    input_token r' = Some tk ->
+    declared r' = true -> input_token r' = Some tk ->
     r_cookie r' = match set_cookie (handle r) with Some c => Some c | None => r_cookie r end ->
     ran (handle r') = true /\ status (handle r') <> 403%Z.
 Proof. exact issued_token_reaches_handler. Qed.
@@ -96,7 +139,7 @@ Theorem C24_other_sessions_token_refused :
   forall r ov mask v0 tok ts tk,
     bytes tok -> bytes mask ->
     issue ov mask (v0, tok, ts) = Some tk ->
-    input_token r = Some tk -> gate r = true -> tok <> secret r ->
+    input_token r = Some tk -> declared r = true -> gate r = true -> tok <> secret r ->
     handle r = mkresp 403 false None None.
 Proof. exact other_secret_refused. Qed.
 Print Assumptions C24_other_sessions_token_refused.
@@ -111,11 +154,13 @@ Proof. exact set_cookie_carries_fresh_secret. Qed.
 Print Assumptions C24_set_cookie_carries_fresh_secret.
 
 (* 8. The model satisfies the checker that the harness applies to the real
-      implementation's observable on every case (os.urandom(16) is not empty). *)
+      implementation's observable on every case, with or without a raw Cookie
+      header (os.urandom(16) is not empty). *)
 Theorem C24_model_satisfies_check :
-  forall r, bytes (r_rnd r) -> bytes (r_mask r) -> r_rnd r <> [] ->
-    check_case r (run_case r) = true.
-Proof. exact model_satisfies_check. Qed.
+  forall c : option str * req,
+    bytes (r_rnd (snd c)) -> bytes (r_mask (snd c)) -> r_rnd (snd c) <> [] ->
+    check_case c (run_case c) = true.
+Proof. exact model_satisfies_check_case. Qed.
 Print Assumptions C24_model_satisfies_check.
 
 (* 9. The secret a request works with is never empty, and a cookie that decodes
@@ -132,3 +177,35 @@ Theorem C24_empty_secret_cookie_is_replaced :
     raw_token r = (None, r_rnd r, r_now r).
 Proof. exact empty_secret_cookie_is_replaced. Qed.
 Print Assumptions C24_empty_secret_cookie_is_replaced.
+
+(* 10. Transport of the cookie (httputil.parse_cookie, _unquote_cookie,
+       get_cookie): in a Cookie header later chunks win and chunks with other
+       names are transparent; "_xsrf=<token>" delivers exactly the token; so the
+       cookie the application sets, sent back after any other cookies, makes the
+       issued token acceptable end to end. *)
+Theorem C24_cookie_header_later_chunks_win :
+  forall a b,
+    cookie_of_header (a ++ 59 :: b) =
+    match cookie_of_header b with Some v => Some v | None => cookie_of_header a end.
+Proof. exact cookie_of_header_app. Qed.
+Print Assumptions C24_cookie_header_later_chunks_win.
+
+Theorem C24_cookie_header_delivers_token :
+  forall pre sp tk,
+    Forall (fun c => str_space c = true) sp -> Forall tokc tk ->
+    cookie_of_header (pre ++ 59 :: sp ++ XSRF_NAME ++ 61 :: tk) = Some tk
+    /\ cookie_of_header (XSRF_NAME ++ 61 :: tk) = Some tk.
+Proof. exact cookie_header_delivers_token_both. Qed.
+Print Assumptions C24_cookie_header_delivers_token.
+
+Theorem C24_issued_token_accepted_via_cookie_header :
+  forall r r0 pre sp c,
+    bytes (r_rnd r) -> bytes (r_mask r) -> r_rnd r <> [] ->
+    set_cookie (handle r) = Some c ->
+    Forall (fun x => str_space x = true) sp ->
+    declared r0 = true ->
+    input_token r0 = Some c ->
+    ran (handle (apply_header (Some (pre ++ 59 :: sp ++ XSRF_NAME ++ 61 :: c)) r0)) = true
+    /\ status (handle (apply_header (Some (pre ++ 59 :: sp ++ XSRF_NAME ++ 61 :: c)) r0)) <> 403%Z.
+Proof. exact issued_token_accepted_via_cookie_header. Qed.
+Print Assumptions C24_issued_token_accepted_via_cookie_header.
